@@ -24,7 +24,7 @@ Inductive rctx :=
 | RSubL (c : rctx) (r : expr)
 | RPipeL (c : rctx) (r : expr)
 | RIndexL (c : rctx) (i : Z)
-| RSliceL (c : rctx) (a b s : option Z) (r : rhs)
+| RSliceL (c : rctx) (a b : option Z) (s : option (option Z)) (r : rhs)
 | RListProjL (c : rctx) (r : rhs)
 | RFlattenL (c : rctx) (r : rhs)
 | RFilterL (c : rctx) (cond : expr) (r : rhs)
